@@ -27,6 +27,13 @@ func (b *builder) proc(n uint32, k int) {
 }
 func (b *builder) act(n uint32)          { b.do(Event{Kind: "act", Node: n}) }
 func (b *builder) timer(n uint32, t int) { b.do(Event{Kind: "timer", Node: n, Timer: t}) }
+func (b *builder) peek(n uint32, t int) { b.do(Event{Kind: "peek", Node: n, Timer: t}) }
+func (b *builder) late(n uint32) {
+	if in := b.nw.intent[n]; in != nil {
+		l := *in
+		b.do(Event{Kind: "late", Node: n, Late: &l})
+	}
+}
 func (b *builder) byz(n uint32, m ByzMsg) {
 	mm := m
 	b.do(Event{Kind: "byz", Node: n, Byz: &mm})
@@ -183,6 +190,9 @@ func probe(w *world, k int) (*Schedule, error) {
 	if k == 4 {
 		return probeCrossover(w)
 	}
+	if k == 5 {
+		return probeRace(w)
+	}
 	p := params4(3)
 	nw, err := newNet(w, p)
 	if err != nil {
@@ -272,4 +282,41 @@ func probeCrossover(w *world) (*Schedule, error) {
 	b.timer(3, 3)
 	b.act(3)
 	return &Schedule{Label: "probe/honest-two-proposals-crossover", Params: p, Events: b.evs}, nil
+}
+
+// probeRace: NO faulty peer; commitBlock's pre-check and the rest of commitBlock are not atomic.
+// 1 and 3 endorse the leader's block, and (their endorse timeout firing before their own
+// endorsement is processed) also its empty block, then commit the block. 2 receives the two empty
+// endorsements before the proposal: its empty-endorse timeout handler decides to commit the EMPTY
+// block and passes commitBlock's pre-check (peek); before it goes on, 2's message loop processes the
+// two commitments of the block, sees the commit quorum and commits the BLOCK; then the timer loop
+// runs the rest of its commitBlock (late). setProposalCommitted must refuse it: one commit per height.
+func probeRace(w *world) (*Schedule, error) {
+	p := params4()
+	nw, err := newNet(w, p)
+	if err != nil {
+		return nil, err
+	}
+	defer nw.close()
+	b := &builder{nw: nw}
+	b.propose(0)
+	b.proc(0, 1)
+	for _, x := range []uint32{1, 3} {
+		b.deliverProposal(x, 0, 0)
+		b.proc(x, 1)
+		b.timer(x, 1)
+		b.proc(x, 3)
+	}
+	b.deliver(2, 1, "endorse", 0, true)
+	b.deliver(2, 3, "endorse", 0, true)
+	b.proc(2, 2)
+	b.deliverProposal(2, 0, 0)
+	b.peek(2, 2)
+	b.deliver(2, 1, "commit", 0, false)
+	b.deliver(2, 3, "commit", 0, false)
+	b.proc(2, 4)
+	b.late(2)
+	b.proc(2, 3)
+	b.act(2)
+	return &Schedule{Label: "probe/commit-precheck-race", Params: p, Events: b.evs}, nil
 }
